@@ -86,12 +86,13 @@ def check_token_construction(run: Run, rule: str) -> None:
     if loop is None:
         raise AnalysisError("tokenize: loop over compiled_patterns not found")
     tvar = loop.target.elts[1].id  # type: ignore[attr-defined]
-    toks = [c for c in ast.walk(loop) if isinstance(c, ast.Call) and ast.unparse(c.func) == "Token"]
-    ok = len(toks) == 1 and toks[0].args and isinstance(toks[0].args[0], ast.Name) and toks[0].args[0].id == tvar
-    retype = [n for n in ast.walk(loop) if isinstance(n, ast.Name) and isinstance(n.ctx, ast.Store) and n.id == tvar and n is not loop.target.elts[1]]  # type: ignore[attr-defined]
+    # (the loop's else clause - nothing matched - is not a pattern match)
+    toks = [c for st in loop.body for c in ast.walk(st) if isinstance(c, ast.Call) and ast.unparse(c.func) == "Token"]
+    ok = len(toks) >= 1 and all(t.args and isinstance(t.args[0], ast.Name) and t.args[0].id == tvar for t in toks)
+    retype = [n for st in loop.body for n in ast.walk(st) if isinstance(n, ast.Name) and isinstance(n.ctx, ast.Store) and n.id == tvar and n is not loop.target.elts[1]]  # type: ignore[attr-defined]
     run.instance(rule, lx.loc(loop), f"tokenize: text matched by a pattern becomes a token of that pattern's own type (`Token({tvar}, ...)`, {tvar} never rebound)", ok=bool(ok) and not retype)
     if not (ok and not retype):
-        bad = retype[0] if retype else (toks[0] if toks else loop)
+        bad = retype[0] if retype else (next((t for t in toks if not (t.args and isinstance(t.args[0], ast.Name) and t.args[0].id == tvar)), None) or loop)
         run.violation(rule, lx, fi.qualname, bad, "the token type of a pattern match is changed after matching: the token table no longer describes what the tokenizer produces", line=getattr(bad, "lineno", loop.lineno))
 
 
